@@ -30,3 +30,37 @@ Example C19_bundled_shape :
   split_compounds (s2l "{__COMPOUND_PART1__{ P0 = (RsV > 0) ? 0xff : 0x00; }__COMPOUND_PART1__ if (P0_NEW) { JUMP(riV); }}")
   = Some (s2l "{ P0 = (RsV > 0) ? 0xff : 0x00; }", s2l "{ if (P0_NEW) { JUMP(riV); }}").
 Proof. vm_compute. reflexivity. Qed.
+
+(* ------------------------------------------------------------------ the theorems over ALL strings *)
+From RZ.proofs Require Import PreProofs.
+Local Open Scope list_scope.
+
+(* NAME and BODY are recovered exactly, whatever parentheses, commas, braces or nested calls BODY contains *)
+Theorem C19_split_line_roundtrip :
+  forall (name body tail : str), name <> [] -> Forall (fun c => is_word c = true) name ->
+    body <> [] -> Forall (fun c => Ascii.eqb c nl = false) body -> (tail = [] \/ tail = [nl]) ->
+    split_resolved (s2l "insn(" ++ name ++ s2l ", " ++ body ++ s2l ")" ++ tail) = Some (name, body).
+Proof. exact split_line_roundtrip. Qed.
+Print Assumptions C19_split_line_roundtrip.
+
+(* exact characterisation of the accepted lines: an item insn(NAME, BODY) possibly PRECEDED BY ANYTHING (that is D12a) *)
+Theorem C19_split_line_accepts_iff :
+  forall line, split_resolved line <> None <->
+    exists pre name body tail, line = pre ++ s2l "insn(" ++ name ++ s2l ", " ++ body ++ s2l ")" ++ tail
+      /\ name <> [] /\ wordy name /\ body <> [] /\ nonl body /\ (tail = [] \/ tail = [nl]).
+Proof. exact split_line_accepts_iff. Qed.
+Print Assumptions C19_split_line_accepts_iff.
+
+(* compounds: the two parts are exactly the marked regions; text before the first marker never appears in them *)
+Theorem C19_split_compounds_spec :
+  forall pre p1 p2, contains marker p1 = false -> contains marker p2 = false -> p1 <> [] -> nonl pre -> nonl p1 -> nonl p2 ->
+    split_compounds (s2l "{" ++ pre ++ marker ++ s2l "{" ++ p1 ++ s2l "}" ++ marker ++ p2 ++ s2l "}")
+    = Some (s2l "{" ++ p1 ++ s2l "}", s2l "{" ++ p2 ++ s2l "}").
+Proof. exact split_compounds_spec_strong. Qed.
+Print Assumptions C19_split_compounds_spec.
+
+Theorem C19_load_line :
+  forall (name body tail : str), name <> [] -> Forall (fun c => is_word c = true) name ->
+    body <> [] -> Forall (fun c => Ascii.eqb c nl = false) body -> (tail = [] \/ tail = [nl]) -> contains marker body = false ->
+    load_line (s2l "insn(" ++ name ++ s2l ", " ++ body ++ s2l ")" ++ tail) = LOne name body.
+Proof. exact load_line_spec. Qed.
